@@ -279,6 +279,33 @@ def run_items(case):
                 break
         else:
             nontrivial.append(f"solver-order/{slab}")
+    # an item whose tangent has NO major symmetry (user material without potential, deformed state) analysed with a general
+    # eigen-solver handed in through solver= (scipy's eigs): the returned pairs belong to K as assembled, not to its symmetric part
+    from scipy.sparse.linalg import eigs as _eigs
+    from .c01 import material as _c01_material
+
+    fns_ = fem.FieldContainer([Fc(region, dim=d)])
+    fns_[0].values[:] = 0.08 * zoo.offarr(seed, 1505, fns_[0].values.shape)
+    um_ns, _ = _c01_material("user-nonconservative", region)
+    bns_ = fem.SolidBody(um_ns, fns_, density=1.0)
+    bnd2_ = {"a": fem.Boundary(fns_[0], mask=np.isclose(P[:, 0], P[:, 0].min()))}
+    d0n_, d1n_ = fem.dof.partition(fns_, bnd2_)
+    Kn_ = bns_.assemble.matrix(fns_).toarray()[np.ix_(d1n_, d1n_)]
+    Mn_ = bns_.assemble.mass().toarray()[np.ix_(d1n_, d1n_)]
+    asym_ = np.abs(Kn_ - Kn_.T).max() / np.abs(Kn_).max()
+    outcomes.add("nonsymmetric-K" if asym_ > 1e-6 else "nonsymmetric-K-missing")
+    job = fem.FreeVibration([bns_], bnd2_)
+    job.evaluate(x0=fns_, solver=lambda A, M, sigma, **kw: _eigs(A=A, M=M, sigma=sigma, **kw), k=4, v0=1.0 + zoo.offarr(seed, 1506, (len(d1n_),)))
+    st["trans"] += 1
+    lamn_, Vn_ = np.asarray(job.eigenvalues), np.asarray(job.eigenvectors)
+    for j in range(4):
+        res = np.abs(Kn_ @ Vn_[:, j] - lamn_[j] * (Mn_ @ Vn_[:, j])).max() / (np.abs(Kn_).max() * np.abs(Vn_[:, j]).max())
+        st["traces"] += 1
+        if res > 1e-7:
+            bad(f"nonsymmetric-item/pair{j}", "K v = lambda M v for a body without major symmetry analysed with a general eigen-solver (K as assembled from the item)", float(res), 0, 1e-7)
+            break
+    else:
+        nontrivial.append("nonsymmetric-item")
     # one long-lived job whose ITEMS change between two evaluations (same unknowns): the density of a body, a second body
     # appended to / replaced in the item list, the stiffness multiplier -- every ordered pair of changes; the second evaluation
     # must return eigenpairs of the pencil assembled from the items as they are THEN
